@@ -133,23 +133,7 @@ func (r *Receiver) SegmentHandlerFunc(w http.ResponseWriter, req *http.Request) 
 	var filePath string
 
 	trName := stream.trName
-	ch.mu.RLock()
-	masterTimescale := ch.masterTimescale
-	masterSegDur := ch.masterSegDuration
-	masterTimeShift := ch.masterTimeShift
-	masterSeqNrShift := ch.masterSeqNrShift
-	nrRestarts := ch.nrRestarts
-	if ch.hasNewMaster() {
-		// The channel will start again before this segment is handled. Receive it like before a start.
-		masterTimescale, masterSegDur, masterTimeShift, masterSeqNrShift = 0, 0, 0, 0
-		nrRestarts++
-	}
-	ch.mu.RUnlock()
-
-	rsd := &recSegData{name: stream.trName,
-		nrRestarts:      nrRestarts,
-		shouldBeShifted: masterTimeShift != 0 || masterSeqNrShift != 0,
-	}
+	rsd := &recSegData{name: stream.trName}
 
 	defaultDur := mpd.Ptr(uint32(0))
 
@@ -199,6 +183,22 @@ func (r *Receiver) SegmentHandlerFunc(w http.ResponseWriter, req *http.Request) 
 			}
 
 			if rsd.chunkNr == 0 {
+				// The start parameters of the channel are read when the segment arrives, not when the request does.
+				// The channel may start in between, and the segment must then be shifted like all later ones.
+				ch.mu.RLock()
+				masterTimescale := ch.masterTimescale
+				masterSegDur := ch.masterSegDuration
+				masterTimeShift := ch.masterTimeShift
+				masterSeqNrShift := ch.masterSeqNrShift
+				rsd.nrRestarts = ch.nrRestarts
+				if ch.hasNewMaster() {
+					// The channel will start again before this segment is handled. Receive it like before a start.
+					masterTimescale, masterSegDur, masterTimeShift, masterSeqNrShift = 0, 0, 0, 0
+					rsd.nrRestarts++
+				}
+				ch.mu.RUnlock()
+				rsd.shouldBeShifted = masterTimeShift != 0 || masterSeqNrShift != 0
+
 				// Create new file path based on sequence number and startNr of channel
 				// The outgoing sequence number should be
 				// (baseMediaTime - startTime) / segmentDuration - startNr
